@@ -205,6 +205,19 @@ func (o *oracle) newCommitTs(txn *Txn) (uint64, bool) {
 	return ts, false
 }
 
+// forgetCommit removes the conflict-log record newCommitTs made for a commit timestamp
+// whose writes were never applied (the write path refused them).
+func (o *oracle) forgetCommit(ts uint64) {
+	o.Lock()
+	defer o.Unlock()
+	for i := len(o.committedTxns) - 1; i >= 0; i-- {
+		if o.committedTxns[i].ts == ts {
+			o.committedTxns = append(o.committedTxns[:i], o.committedTxns[i+1:]...)
+			return
+		}
+	}
+}
+
 func (o *oracle) doneRead(txn *Txn) {
 	if !txn.doneRead {
 		txn.doneRead = true
@@ -640,6 +653,9 @@ func (txn *Txn) commitAndSend() (func() error, error) {
 		if y.VerifEnabled {
 			y.VerifEvent("commit.rejected", txn, commitTs, err)
 		}
+		// The writes were refused: nothing of this transaction will ever be visible, so it
+		// must not stay in the conflict log either.
+		orc.forgetCommit(commitTs)
 		orc.doneCommit(commitTs)
 		return nil, err
 	}
